@@ -181,6 +181,27 @@ MUTANTS = [
     # layer, and the MVCC boundary invalidates the same object anyway)
     # (DemoStorage.store comparing nothing is also unobservable: the
     # changes storage repeats the comparison)
+    ('C08', 'swap-keeps-pooled-readers', FS,
+     "                    self._files.empty()\n                    self._file.close()\n                    try:\n                        os.rename(self._file_name, oldpath)",
+     "                    self._file.close()\n                    try:\n                        os.rename(self._file_name, oldpath)"),
+    ('C08', 'copyone-does-not-retake-commit-lock', PK,
+     "        self.index.update(self.tindex)\n        self.tindex.clear()\n        self._commit_lock.acquire()\n        self.locked = True\n        return ipos",
+     "        self.index.update(self.tindex)\n        self.tindex.clear()\n        self.locked = False\n        return ipos"),
+    ('C08', 'failure-keeps-commit-lock', PK,
+     "            close_files_remove()\n            if self.locked:\n                self._commit_lock.release()\n            raise  # don't succeed silently",
+     "            close_files_remove()\n            raise  # don't succeed silently"),
+    ('C08', 'pack-flag-not-reset', FS,
+     "            with self._lock:\n                self._pack_is_in_progress = False\n\n        if not self.pack_keep_old:",
+     "            pass\n\n        if not self.pack_keep_old:"),
+    ('C08', 'swap-without-write-lock', FS,
+     "            opos, index = pack_result\n            with self._files.write_lock():\n                with self._lock:",
+     "            opos, index = pack_result\n            with contextlib.nullcontext():\n                with self._lock:"),
+    ('C08', 'second-pack-not-refused', FS,
+     "            if self._pack_is_in_progress:\n                raise FileStorageError('Already packing')",
+     "            if False:\n                raise FileStorageError('Already packing')"),
+    ('C08', 'packer-reads-buffered-tail', PK,
+     "                self._file = open(self._path, \"rb\", 0)\n                self._file.seek(0, 2)",
+     "                self._file = open(self._path, \"rb\")\n                self._file.seek(0, 2)"),
 ]
 
 
